@@ -59,9 +59,9 @@ def guarding_comparisons(b, defs, big, small):
         f_edge, t_edge = w['ts'][0][1], w['else']
         holds = None
         if (x, y) == (small, big):        # small <op> big
-            holds = {'Gt': f_edge, 'Le': t_edge}.get(rv['bop'])
+            holds = {'Gt': f_edge, 'Le': t_edge, 'Ge': f_edge, 'Lt': t_edge}.get(rv['bop'])      # `!(small >= big)` and `small < big` both imply small <= big
         elif (x, y) == (big, small):      # big <op> small
-            holds = {'Lt': f_edge, 'Ge': t_edge}.get(rv['bop'])
+            holds = {'Lt': f_edge, 'Ge': t_edge, 'Le': f_edge, 'Gt': t_edge}.get(rv['bop'])
         if holds is not None:
             out.append((sb, holds, t_edge if holds == f_edge else f_edge))
     return out
